@@ -400,8 +400,24 @@ func runC16Concurrent(c *sim.Ctx, t *testing.T, faults bool) {
 		plans[i] = cwGenOps(c, ids, 1+c.Intn(4, "nops"), false, &seq)
 	}
 	ntoggles := 0
+	var toggleAfter []int
+	var togglePause []bool
 	if faults {
 		ntoggles = 1 + c.Intn(4, "ntoggles")
+		// when the store goes away and comes back: after so many scheduler steps of the faulter
+		// (requests take no simulated time, so a clock alone would only ever strike between
+		// them), and sometimes a millisecond later
+		for k := 0; k < ntoggles+1; k++ {
+			toggleAfter = append(toggleAfter, 1+c.Intn(6, "toggleafter"))
+			togglePause = append(togglePause, c.Chance(1, 3, "togglepause"))
+		}
+	}
+	thinks := make([][]bool, len(plans))
+	for i := range plans {
+		thinks[i] = make([]bool, len(plans[i]))
+		for k := range thinks[i] {
+			thinks[i][k] = faults && c.Chance(1, 4, "think")
+		}
 	}
 	type rec struct {
 		in       cwIn
@@ -427,8 +443,11 @@ func runC16Concurrent(c *sim.Ctx, t *testing.T, faults bool) {
 		for i := range plans {
 			i := i
 			s.Go(fmt.Sprintf("client%d", i), func(tk *sim.Task) {
-				for _, op := range plans[i] {
+				for k, op := range plans[i] {
 					sim.Yield("h#op")
+					if thinks[i][k] {
+						sim.Sleep(2 * time.Millisecond) // think time: the clock can move between requests
+					}
 					r := rec{in: cwIn{kind: op.kind, id: op.id}}
 					r.inv = lg.Add(sim.Ev{Kind: op.kind + ".inv", Id: op.id})
 					switch op.kind {
@@ -475,20 +494,43 @@ func runC16Concurrent(c *sim.Ctx, t *testing.T, faults bool) {
 			s.Go("faulter", func(tk *sim.Task) {
 				open := true
 				for k := 0; k < ntoggles; k++ {
-					sim.Yield("h#fault")
-					sim.Sleep(time.Millisecond)
+					if open {
+						// the store goes away at any scheduler step, also in the middle of a request
+						for y := 0; y < toggleAfter[k]; y++ {
+							sim.Yield("h#fault")
+						}
+						if togglePause[k] {
+							sim.Sleep(time.Millisecond)
+						}
+					} else {
+						// it comes back a moment later, between requests: Open replaces the handle, so
+						// the operator holds the crew's lock while doing that (a request that has let
+						// go of the lock in mid-flight can still be caught out by it)
+						sim.Yield("h#fault")
+						if togglePause[k] {
+							sim.Sleep(time.Millisecond)
+						}
+					}
 					if open {
 						svc.store.db.Close()
 						lg.Add(sim.Ev{Kind: "store.closed"})
 					} else {
+						sim.Gate(&svc.crew, "h#operator")
+						svc.crew.Lock()
 						svc.store.Open(ctx)
+						svc.crew.Unlock()
+						sim.Yield("h#operator'")
 						lg.Add(sim.Ev{Kind: "store.opened"})
 					}
 					open = !open
 				}
 				if !open {
 					sim.Sleep(time.Millisecond)
+					sim.Gate(&svc.crew, "h#operator")
+					svc.crew.Lock()
 					svc.store.Open(ctx)
+					svc.crew.Unlock()
+					sim.Yield("h#operator'")
 					lg.Add(sim.Ev{Kind: "store.opened"})
 				}
 			})
